@@ -16,6 +16,7 @@ import (
 	"reflect"
 	"runtime/debug"
 	"sort"
+	"strings"
 	"sync"
 
 	"github.com/Azbesciak/RealDecisionMaker/lib/model"
@@ -218,6 +219,11 @@ func (t *tracingBias) Apply(original, current *model.DecisionMakingParams, props
 func jsonTree(v interface{}) interface{} {
 	b, err := json.Marshal(v)
 	if err != nil {
+		if _, ok := err.(*json.UnsupportedValueError); ok {
+			// NaN / Inf somewhere: the same tree encoding/json would build, the numbers JSON cannot carry as strings,
+			// and the encoder's message beside it (the service itself cannot answer with this report)
+			return map[string]interface{}{"__marshalError": err.Error(), "__tolerant": tolerantTree(reflect.ValueOf(v), 0)}
+		}
 		return map[string]interface{}{"__marshalError": err.Error()}
 	}
 	var t interface{}
@@ -485,4 +491,110 @@ func dumpRec(v reflect.Value, depth int) interface{} {
 	default:
 		return "<" + v.Kind().String() + ">"
 	}
+}
+
+// tolerantTree mirrors encoding/json for the shapes the library reports (struct fields by json tag, embedded structs
+// flattened, omitempty, "-", string-keyed maps, slices, pointers, interfaces) and writes NaN / Inf as strings.
+func tolerantTree(v reflect.Value, depth int) interface{} {
+	if depth > 40 || !v.IsValid() {
+		return nil
+	}
+	switch v.Kind() {
+	case reflect.Ptr, reflect.Interface:
+		if v.IsNil() {
+			return nil
+		}
+		return tolerantTree(v.Elem(), depth+1)
+	case reflect.Struct:
+		m := map[string]interface{}{}
+		tolerantFields(v, m, depth)
+		return m
+	case reflect.Slice:
+		if v.IsNil() {
+			return nil
+		}
+		fallthrough
+	case reflect.Array:
+		l := make([]interface{}, v.Len())
+		for i := 0; i < v.Len(); i++ {
+			l[i] = tolerantTree(v.Index(i), depth+1)
+		}
+		return l
+	case reflect.Map:
+		if v.IsNil() {
+			return nil
+		}
+		m := make(map[string]interface{}, v.Len())
+		iter := v.MapRange()
+		for iter.Next() {
+			m[fmt.Sprint(iter.Key().Interface())] = tolerantTree(iter.Value(), depth+1)
+		}
+		return m
+	case reflect.Float32, reflect.Float64:
+		return fl(v.Float())
+	case reflect.Int, reflect.Int8, reflect.Int16, reflect.Int32, reflect.Int64:
+		return v.Int()
+	case reflect.Uint, reflect.Uint8, reflect.Uint16, reflect.Uint32, reflect.Uint64:
+		return v.Uint()
+	case reflect.String:
+		return v.String()
+	case reflect.Bool:
+		return v.Bool()
+	default:
+		return nil
+	}
+}
+
+func tolerantFields(v reflect.Value, m map[string]interface{}, depth int) {
+	t := v.Type()
+	for i := 0; i < v.NumField(); i++ {
+		f := t.Field(i)
+		tag := f.Tag.Get("json")
+		if tag == "-" {
+			continue
+		}
+		name, opts := tag, ""
+		if k := strings.Index(tag, ","); k >= 0 {
+			name, opts = tag[:k], tag[k:]
+		}
+		if f.Anonymous && name == "" {
+			fv := v.Field(i)
+			for fv.Kind() == reflect.Ptr && !fv.IsNil() {
+				fv = fv.Elem()
+			}
+			if fv.Kind() == reflect.Struct {
+				tolerantFields(fv, m, depth+1)
+				continue
+			}
+		}
+		if f.PkgPath != "" { // unexported
+			continue
+		}
+		if name == "" {
+			name = f.Name
+		}
+		fv := v.Field(i)
+		if strings.Contains(opts, "omitempty") && isEmptyValue(fv) {
+			continue
+		}
+		m[name] = tolerantTree(fv, depth+1)
+	}
+}
+
+func isEmptyValue(v reflect.Value) bool {
+	switch v.Kind() {
+	case reflect.Array, reflect.Map, reflect.Slice, reflect.String:
+		return v.Len() == 0
+	case reflect.Bool:
+		return !v.Bool()
+	case reflect.Int, reflect.Int8, reflect.Int16, reflect.Int32, reflect.Int64:
+		return v.Int() == 0
+	case reflect.Uint, reflect.Uint8, reflect.Uint16, reflect.Uint32, reflect.Uint64:
+		return v.Uint() == 0
+	case reflect.Float32, reflect.Float64:
+		return v.Float() == 0
+	case reflect.Interface, reflect.Ptr:
+		return v.IsNil()
+	}
+	return false
 }
